@@ -141,12 +141,16 @@ func SelfTest() error {
 var kwIV = []byte{0xA6, 0xA6, 0xA6, 0xA6, 0xA6, 0xA6, 0xA6, 0xA6}
 
 // KeyWrap wraps plaintext (a multiple of 8 bytes, at least 16) under kek.
-func KeyWrap(kek, pt []byte) ([]byte, error) {
-	if len(pt)%8 != 0 || len(pt) < 16 {
+func KeyWrap(kek, pt []byte) ([]byte, error) { return KeyWrapIV(kek, pt, kwIV) }
+
+// KeyWrapIV is the RFC 3394 wrap with another initial value than A6A6A6A6A6A6A6A6: what it produces must NOT pass
+// the integrity check of a conforming unwrap.
+func KeyWrapIV(kek, pt, iv []byte) ([]byte, error) {
+	if len(pt)%8 != 0 || len(pt) < 16 || len(iv) != 8 {
 		return nil, errors.New("ref: key wrap input must be n*8 bytes, n>=2")
 	}
 	n := len(pt) / 8
-	a := append([]byte{}, kwIV...)
+	a := append([]byte{}, iv...)
 	r := make([][]byte, n)
 	for i := range r {
 		r[i] = append([]byte{}, pt[8*i:8*i+8]...)
